@@ -88,12 +88,20 @@ def check(rep, tier):
     steps = []
     for ri in range(nruns):
         cfg = fr.gen_config(rng, max_vials=30 if tier == "quick" else 120, max_steps=700, cn=(ri % 4 == 3))
+        if ri % 10 == 1 and cfg["shape"][2] == 1:
+            cfg["k"] = dict(cfg["k"], s_sigma_rel=1.0)      # large shelf variability: some draws are negative and must be clipped to 0
         try:
             r = fr.run(cfg)
         except Exception as e:
             rep.violation("crash %s" % type(e).__name__, "Snowflake.run raises %r for %s" % (e, cfg), dict(config=cfg, error=repr(e)))
             continue
         hyp = hypotheses(cfg, r)
+        if not hyp["hshelf_nonneg"]:
+            # not a property of the configuration: the package clips negative random shelf coefficients to 0 (heat must flow from warm to cold)
+            i = int(np.argmin(r["hshelf"]))
+            rep.violation("negative-shelf-coefficient", "vial %d exchanges heat with the shelf with a NEGATIVE coefficient H_shelf=%r W/K (k=%r, %s): heat flows from the colder to the warmer body" % (
+                i, r["hshelf"][i], cfg["k"], cfg["shape"]), dict(config=cfg, vial=i))
+        rep.count("clipped-shelf-coefficients", int((r["hshelf"] == 0).sum()) if cfg["k"]["s0"] > 0 else 0)
         nn = int(np.sum(~np.isnan(r["stats"]["t_nucleation"])))
         rep.case(repr(cfg), nontrivial=hyp["inside"] and nn > 0,
                  sample=dict(shape=cfg["shape"], arr=cfg["arr"], dt=cfg["dt"], k=cfg["k"], hypotheses=hyp, nucleated=nn) if ri < 5 else None)
